@@ -106,7 +106,7 @@ def run(ctx):
     ctx.clause = ("which ELF symbols become entries of the function / variable symbol tables, and with which type, "
                   "binding, visibility, default-version mark and alias links, is decided by tables and predicates that "
                   "agree with the ELF constants over their whole domain")
-    ctx.rules = ["R-SYMCONV", "R-SYMPUBLIC", "R-SYMKIND", "R-SYMFILTER", "R-SYMSECT", "R-SYMSEL", "R-SYMALIAS", "R-VERDEFAULT", "R-SYMSRC"]
+    ctx.rules = ["R-SYMCONV", "R-SYMPUBLIC", "R-SYMKIND", "R-SYMFILTER", "R-SYMSECT", "R-SYMSEL", "R-SYMALIAS", "R-VERDEFAULT", "R-SYMSRC", "R-INVBREAK"]
     P = ctx.program(UNITS)
     stt = check_conv(ctx, P)
     check_public(ctx, P)
@@ -118,6 +118,9 @@ def run(ctx):
     check_alias_domain(ctx, P)
     check_verdefault(ctx, P)
     check_symsrc(ctx)
+    from rules import invbreak_rule
+    k = invbreak_rule.check(ctx, P, [f for f in P.all_funcs() if f.relfile.endswith(("src/abg-elf-helpers.cc", "src/abg-symtab-reader.cc"))])
+    ctx.floor("R-INVBREAK", "search loops (`if (..) break`) of the ELF helpers and the symtab reader", k, 5)
     ctx.assume("libelf hands back the fields of the symbol table entries faithfully; names, sizes, addresses and the "
                "version strings are runtime values read from the binary and are not decided here (the oracle of the "
                "property is readelf)")
